@@ -167,11 +167,6 @@ fn compute_block_facts<'ast, 'arena>(
                         note_use(&mut uses, &defs, local, local_start);
                     }
                 }
-                for &local in &summary.transitive_capture_writes {
-                    if facts.locals[local.0 as usize].owner == function {
-                        note_def(&mut defs, local, local_start);
-                    }
-                }
             }
         }
 
@@ -193,13 +188,8 @@ fn apply_op_transfer(
     for &local in &op.writes {
         clear_local(live, local, local_start);
     }
-    for &callee in &op.direct_callees {
-        for &local in &summaries[callee.0 as usize].transitive_capture_writes {
-            if facts.locals[local.0 as usize].owner == function {
-                clear_local(live, local, local_start);
-            }
-        }
-    }
+    // A callee's capture writes are only may-writes (they can sit behind a branch, an
+    // early return or in dead code), so they must not end the liveness of a local.
 
     for &local in &op.reads {
         set_local(live, local, local_start);
